@@ -25,6 +25,12 @@ structure PEnv where
   dryrun : Bool
   syntaxOnly : Bool
   stdinMode : Bool
+  /-- GHOST (not part of `struct environment`): iterations granted to the model's `readdir` loops (`walk`,
+  `closeStdin`) on top of their standard allowance.  The C loops are unbounded (`while ((ent = readdir(..)))`); a
+  `Prog` is a well-founded tree, so the model's loops carry fuel.  Every theorem about `mainP` is quantified over the
+  environment and therefore holds for EVERY value of this field; a run that ends with `MainSt.fuelOut = false` is the
+  same for every larger value (`C04_fuel_irrelevant`). -/
+  extraFuel : Nat := 0
 deriving Repr
 
 /-- `struct maildir`. -/
@@ -372,14 +378,14 @@ if (WIFSIGNALED(status)) error = 128 + WTERMSIG(status);
 ```
 (a stopped child - not reported by `waitpid(pid, &status, 0)` - would leave the initial value 1). -/
 def execStatus (status : Nat) : Int :=
-  let error : Int := 1
+  let error : Int := Gen.execInitialValue
   let error : Int :=
-    if wifexited status then (if wexitstatus status == 127 then -1 else (wexitstatus status : Int)) else error
-  if wifsignaled status then ((128 + wtermsig status : Nat) : Int) else error
+    if wifexited status then (if wexitstatus status == Gen.execFatalExit then Gen.execFatalValue else (wexitstatus status : Int)) else error
+  if wifsignaled status then ((Gen.execSignalBase + wtermsig status : Nat) : Int) else error
 
 /-- The child of `exec()`: `execvp(argv[0], argv); warn(...); _exit(127);` - whatever the reason `execvp` fails for
 (ENOENT, EACCES, ENOTDIR, ENOEXEC, ...), the child exits with this status, which the parent maps to -1. -/
-def execvpFailedStatus : Nat := 127
+def execvpFailedStatus : Nat := Gen.execChildExit
 
 /-- `exec(argv, fdin)`: `> 0` exited non-zero / signalled, `0` success, `< 0` fatal. -/
 def execP (fdin : Option Handle) : Prog Int := do
